@@ -28,7 +28,7 @@ fn exh_filters() -> Vec<Vec<FSpec>> {
 }
 
 fn gen(args: &Args, emit: &mut dyn FnMut(Value)) {
-    let mut rng = Prng::new(args.seed);
+    let mut rng = seeded(args.seed);
     if args.tier == "thorough" {
         // all bodies of <= 4 symbols over the markup alphabet x 7 filter lists x all single cuts + byte-at-a-time
         let mut seqs: Vec<Vec<usize>> = vec![vec![]];
